@@ -331,3 +331,43 @@ Definition theta_affine (name : string) : option (Q * Q) :=
 Definition u_from_csQ (cs : list (Q * Q)) : list (Q * Q) :=
   map (u_from_cs Q (fun q => q) Qplus Qmult cs) [0; 1; 2; 3]%nat.
 Definition nonlocal_coeffsQ (u : list (Q * Q)) : list Q := map (evalQ (env_uQ u)) nonlocal_exprs.
+
+(* ------------------------------------------------------------------------------------ *)
+(* the documented table (docs/explanation/index.rst, fact c15_doc_table)                  *)
+(* ------------------------------------------------------------------------------------ *)
+
+(* formula text of the "Sampling overhead factor" column -> the function of theta it denotes *)
+Definition doc_formula (f : string) : option (R -> R) :=
+  if f =? "3+2\sqrt{2}\approx5.828" then Some (fun _ => 3 + 2 * sqrt 2)%R
+  else if f =? "3^2=9" then Some (fun _ => 3 ^ 2)%R
+  else if f =? "7^2=49" then Some (fun _ => 7 ^ 2)%R
+  else if f =? "4^2=16" then Some (fun _ => 4 ^ 2)%R
+  else if f =? "\left[1+2\left|\sin(\theta)\right|\right]^2"
+       then Some (fun t => (1 + 2 * Rabs (sin t)) ^ 2)%R
+  else if f =? "\left[1+2\left|\sin(\theta/2)\right|\right]^2"
+       then Some (fun t => (1 + 2 * Rabs (sin (t / 2))) ^ 2)%R
+  else if f =? "\left[1+4\left|\sin(\theta/2)\right|+2\sin^2(\theta/2)\right]^2"
+       then Some (fun t => (1 + 4 * Rabs (sin (t / 2)) + 2 * (sin (t / 2)) ^ 2) ^ 2)%R
+  else None.
+
+(* what a row of the "Instruction(s)" column is about: a registered name, or a gate that goes
+   through the KAK path, given by its documented Weyl coordinates (|p theta|, |q theta|, 0) *)
+Inductive subject := SName (n : string) | SKak (p q : Q).
+
+Definition doc_subject (cls : string) : option subject :=
+  assoc cls
+    [("CSGate", SName "cs"); ("CSdgGate", SName "csdg"); ("CSXGate", SName "csx");
+     ("CXGate", SName "cx"); ("CYGate", SName "cy"); ("CZGate", SName "cz"); ("CHGate", SName "ch");
+     ("ECRGate", SName "ecr"); ("iSwapGate", SName "iswap"); ("DCXGate", SName "dcx");
+     ("SwapGate", SName "swap"); ("RXXGate", SName "rxx"); ("RYYGate", SName "ryy");
+     ("RZZGate", SName "rzz"); ("RZXGate", SKak (1#2) (0#1));
+     ("CRXGate", SName "crx"); ("CRYGate", SName "cry"); ("CRZGate", SName "crz");
+     ("CPhaseGate", SName "cp");
+     ("XXPlusYYGate", SKak (1#4) (1#4)); ("XXMinusYYGate", SKak (1#4) (1#4));
+     ("Move", SName "move")].
+
+Definition subject_coeffsR (s : subject) (theta : R) : list R :=
+  match s with
+  | SName n => coeffsR n theta
+  | SKak p q => kak_coeffsR (Rabs (Q2R p * theta)) (Rabs (Q2R q * theta)) 0
+  end.
